@@ -190,11 +190,11 @@ package hamt
 //@ assigns nothing
 
 //@ func (*hamt._UnixFSHAMTShard).MapIterator
-//@ prop C02 C15 C20
+//@ prop C02 C05 C06 C12 C15 C20
 //@ func (*hamt._UnixFSHAMTShard).Iterator
-//@ prop C02 C15 C20
+//@ prop C02 C05 C06 C12 C15 C20
 //@ func (*hamt._UnixFSShardedDir__ListItr).next
-//@ prop C02 C15 C20
+//@ prop C02 C05 C06 C12 C15 C20
 //@ ensures exhausted-child-is-dropped: itr.childIter != nil ==> !itrDone(itr.childIter)
 // One step of the nested iterator with no sub-shard open: a value link of its own shard is stepped
 // over and yielded as it is; at the end of its own links nothing is yielded and no error reported.
@@ -212,6 +212,8 @@ package hamt
 //@ ensures walks-the-same-list: itr._substrate == old(itr._substrate) && itr._substrate.n == old(itr._substrate.n)
 
 //@ func hamt.NewUnixFSHAMTShardWithPreload
+//@ prop C06 C12 C20
+//@ ensures preload-is-the-depth-first-walk-of-the-whole-shard: err == nil ==> result != nil && walked(result.(*hamt._UnixFSHAMTShard))
 //@ ensures any-load-failure-fails-the-preload: err == nil ==> loadFailed == old(loadFailed)
 
 // Behavioural subtyping: these node types are maps / byte strings, never lists, so they answer
